@@ -280,7 +280,9 @@ static OpRes run_op(Side &sd, const Binding &b, const Bytes &P, const Bytes &S, 
     default: {
       char vec[64];
       for (int i = 0; i < 64; i++) vec[i] = (char)((((arg >> 4) & 1) ? ((arg * 29 + i * 7) & 0xfe) : ((arg >> 5) & 1) ? 0x30 : 0) | ((arg >> (i % 8)) & 1));
-      if (sigclass(b.sym) == 10) ((fn_encrypt)f)(vec, arg & 1); else ((fn_encrypt_r)f)(vec, arg & 1, cd);
+      static const int EDFLAG[] = {0, 1, 0, 1, 2, -1, 256, (int)0x80000000u};  // any non-zero value decrypts
+      int edflag = EDFLAG[(arg >> 1) & 7];
+      if (sigclass(b.sym) == 10) ((fn_encrypt)f)(vec, edflag); else ((fn_encrypt_r)f)(vec, edflag, cd);
       r.null_ret = false;
       r.s.assign(vec, 64);
       break;
